@@ -341,8 +341,11 @@ def run(chk: Check, eng: Engine) -> None:
             uc = cm.updates_cpp(cst, list_attrs)
         except cm.CppError as e:
             raise AnalysisError(f"{cname}: the C++ reader does not understand the function ({e})")
-        sp = cm.skeleton_py(pm_.node.body, list_attrs)  # type: ignore[attr-defined]
-        up = cm.updates_py(pm_.node.body, list_attrs)  # type: ignore[attr-defined]
+        # locals that exist on one side only name a sub-condition (`inside_brackets = self.opened > 0`): compare with them inlined
+        cpp_names = {x[1][1] for x in uc if x[0] == "assign" and x[1][0] == "name"}
+        py_body = _inline_private_locals(pm_.node, {cm.fold(n) for n in cpp_names})  # type: ignore[arg-type]
+        sp = cm.skeleton_py(py_body, list_attrs)
+        up = cm.updates_py(py_body, list_attrs)
         where = f"{pname} / {cname}"
         if [strip_self(x) for x in sc] == [strip_self(x) for x in sp]:
             chk.ok("R14-d", where, pm_.line, f"{len(sp)} decision point(s) agree: " + "; ".join(cm.show(x) for x in sp))
@@ -385,6 +388,44 @@ def run(chk: Check, eng: Engine) -> None:
     chk.rule("R14-e", "both lexers close the open blocks at the end of the input in the same way: an unconditional block at the start of nextToken() with the same condition and the same "
              "emitted tokens (drop queued EOFs, NEWLINE, one DEDENT per open block, EOF)", floor=1)
     flush_rule(chk, eng, base_cls, ctxt, list_attrs, strip_self)
+
+
+def _inline_private_locals(fn: ast.FunctionDef, other_side: set) -> list:
+    """Body of fn with every local that is assigned exactly once (a plain `name = <expression>` at statement level of the function), is not a
+    name the sibling implementation has as well, and whose expression reads nothing that is assigned later, substituted into the conditions
+    that use it; the assignment itself is dropped.  Pure renaming of sub-conditions must not look like a difference between the siblings."""
+    from .. import cppmini as cm
+    import copy
+    assigned: dict[str, list] = {}
+    for n in ast.walk(fn):
+        if isinstance(n, (ast.Assign, ast.AugAssign, ast.AnnAssign, ast.For, ast.NamedExpr)):
+            tg = n.targets if isinstance(n, ast.Assign) else [n.target]
+            for t in tg:
+                for x in ast.walk(t):
+                    if isinstance(x, ast.Name):
+                        assigned.setdefault(x.id, []).append(n)
+    inline: dict[str, ast.AST] = {}
+    for st in fn.body:
+        if isinstance(st, ast.Assign) and len(st.targets) == 1 and isinstance(st.targets[0], ast.Name):
+            nm = st.targets[0].id
+            if len(assigned.get(nm, [])) == 1 and cm.fold(nm) not in other_side and isinstance(st.value, (ast.Compare, ast.BoolOp, ast.UnaryOp)) \
+                    and not any(isinstance(c, ast.Call) and not (isinstance(c.func, ast.Name) and c.func.id == "len") for c in ast.walk(st.value)):
+                inline[nm] = st.value
+    if not inline:
+        return fn.body
+
+    class Sub(ast.NodeTransformer):
+        def visit_Name(self, node: ast.Name):
+            if isinstance(node.ctx, ast.Load) and node.id in inline:
+                return self.visit(copy.deepcopy(inline[node.id]))
+            return node
+
+    out = []
+    for st in fn.body:
+        if isinstance(st, ast.Assign) and len(st.targets) == 1 and isinstance(st.targets[0], ast.Name) and st.targets[0].id in inline:
+            continue
+        out.append(ast.fix_missing_locations(Sub().visit(copy.deepcopy(st))))
+    return out
 
 
 def flush_rule(chk: Check, eng: Engine, base_cls, ctxt: str, list_attrs: set, strip_self) -> None:
@@ -515,6 +556,7 @@ MUTANTS = [
     M("python-reset-forgets-in-python", _PYB, "        self.opened = 0\n        self.in_python = 0\n        self.in_fstring = False\n        self.in_filepath = 0\n        super().reset()", "        self.opened = 0\n        self.in_fstring = False\n        self.in_filepath = 0\n        super().reset()", "R14-c"),
 ]
 TWINS = [
+    M("twin-python-skip-condition-in-named-locals", _PYB, "        if self.opened > 0 or (next_next != -1 and next_ in (10, 13, 35)):\n", "        inside_brackets = self.opened > 0\n        next_line_is_empty = next_next != -1 and next_ in (10, 13, 35)\n        if inside_brackets or next_line_is_empty:\n", None),
     M("twin-python-previous-branches-swapped", _PYB, "            previous = 0 if len(self.indents) == 0 else self.indents[-1]\n", "            previous = self.indents[-1] if self.indents else 0\n", None),
     M("twin-python-truthiness-of-lists", _PYB, "                while len(self.indents) > 0 and self.indents[-1] > indent:\n", "                while self.indents and indent < self.indents[-1]:\n", None),
     M("twin-python-previous-by-truthiness", _PYB, "            previous = 0 if len(self.indents) == 0 else self.indents[-1]\n", "            previous = 0 if not self.indents else self.indents[-1]\n", None),
